@@ -23,6 +23,11 @@ TECHNIQUE = "static analysis: ordered effect script of the dispatch arm vs oracl
 
 
 def run(ctx):
+    _run_main7(ctx)
+    _round7(ctx)
+
+
+def _run_main7(ctx):
     _run_main(ctx)
     _shared_r4(ctx)
 
@@ -98,3 +103,10 @@ def _shared_r4(ctx):
                 why="a half-received content, an unread reply or any other per-channel circumstance must not turn the server's Channel.Close into a connection error")
     with ctx.rule('R09.10', "the Channel.Close arm tells the consumers before it releases the channel's caller, so a consumer being dropped cannot end the whole connection (shared with C11)", floor=2) as r:
         A.include(ctx, r, 'c11', 'R11.7')
+
+
+def _round7(ctx):
+    """Found by seeding round 7 (minimal one-line mutations)."""
+    from rules import arms as A
+    with ctx.rule('R09.11', 'the id of a closed channel is handed out again: the freed-id fallback skips stale entries instead of giving up (shared with C10)', floor=3) as r:
+        A.include(ctx, r, 'c10', 'R10.2', pick=('fallback',))
